@@ -15,6 +15,7 @@
 -/
 import Verif.Py
 import Verif.Proto
+import Verif.Num
 
 namespace Verif.C09
 open Verif.Py
@@ -293,6 +294,173 @@ def ensembleOls (tracks : List (List Pt)) (dt : Rat) (maxLag : Int) : Except Str
     let essMean := mean (rows.map (·.st.ess))
     olsFromRows (used.map fun r => ⟨r.lag, r.st.mean, 0⟩) n dt false essMean
 
+/-! ### `calculate_localization_error`, `optimal_points`, `determine_optimal_points`,
+    `_determine_optimal_points_ensemble` — the automatic number of lags (`max_lag=None`) -/
+
+/-- what `calculate_localization_error` returns -/
+inductive LocErr where
+  /-- `0` (negative intercept) or `intercept / slope` -/
+  | fin (q : Rat)
+  /-- negative slope, or a positive intercept over a zero slope (IEEE division) -/
+  | inf
+  /-- `0 / 0` -/
+  | nan
+deriving Repr, DecidableEq
+
+/-- `calculate_localization_error(frame_lags, msd)`: `np.polyfit(…, 1)` is the least-squares line; the branches are taken
+    on the SIGNS of intercept and slope. -/
+def locErr (pts : List (Rat × Rat)) : LocErr :=
+  let ab := olsLine pts
+  if ab.1 < 0 then .fin 0
+  else if ab.2 < 0 then .inf
+  else if ab.2 = 0 then (if ab.1 = 0 then .nan else .inf)
+  else .fin (ab.1 / ab.2)
+
+/-- the type of `optimal_points(localization_error, num_points)` → `(num_points_slope, num_points_intercept)`.
+    The theorems hold for EVERY such function; the run uses `optimalPointsF` (Michalet & Berglund's empirical formulas,
+    evaluated in doubles). -/
+abbrev OptPts := LocErr → Nat → Except String (Nat × Nat)
+
+/-- the local variables of `determine_optimal_points` -/
+structure OptState where
+  numSlope : Nat
+  numIntercept : Nat
+  /-- `number_computed`: how many lags the cached MSD curve holds -/
+  numberComputed : Nat
+  /-- the cached `frame_lags, msd` (last `calculate_msd` result) -/
+  rows : List MsdRow
+  /-- `num_slopes` (a set) -/
+  seen : List Nat
+deriving Repr
+
+def optInit (n : Nat) : OptState := ⟨max 2 (n / 10), max 2 (n / 10), 0, [], []⟩
+
+/-- `if required_points > number_computed: frame_lags, msd = calculate_msd(…, required_points)` -/
+def refresh (t : List Pt) (s : OptState) : OptState :=
+  let req := max s.numIntercept s.numSlope
+  if s.numberComputed < req then { s with rows := msdCounts t (some (req : Int)), numberComputed := req } else s
+
+/-- the `for` loop of `determine_optimal_points` (`fuel` iterations left): the MSD curve is recomputed only when more
+    lags are needed than are cached, the fit takes the first `num_slope` cached points; falling out of the loop returns
+    the current pair (with a warning). -/
+def optLoop (op : OptPts) (t : List Pt) : Nat → OptState → Except String (Nat × Nat)
+  | 0, s => .ok (s.numSlope, s.numIntercept)
+  | fuel + 1, s =>
+    let s1 := refresh t s
+    if t.length ≤ 4 then .error "RuntimeError"
+    else match op (locErr (ptsOf (s1.rows.take s1.numSlope))) t.length with
+      | .error e => .error e
+      | .ok nxt =>
+        if nxt.1 ∈ s1.numSlope :: s1.seen then .ok nxt
+        else optLoop op t fuel { s1 with numSlope := nxt.1, numIntercept := nxt.2, seen := s1.numSlope :: s1.seen }
+
+/-- `determine_optimal_points(frame_idx, coordinate)` (`max_iterations = 100`). -/
+def detOpt (op : OptPts) (t : List Pt) : Except String (Nat × Nat) := optLoop op t 100 (optInit t.length)
+
+/-- the loop of `_determine_optimal_points_ensemble(frame_lags, msds, n_coord)` on the complete ensemble curve. -/
+def optLoopEns (op : OptPts) (pts : List (Rat × Rat)) (n : Nat) : Nat → Nat → List Nat → Except String Nat
+  | 0, cur, _ => .ok cur
+  | fuel + 1, cur, seen =>
+    match op (locErr (pts.take cur)) n with
+    | .error e => .error e
+    | .ok nxt => if nxt.1 ∈ cur :: seen then .ok nxt.1 else optLoopEns op pts n fuel nxt.1 (cur :: seen)
+
+def detOptEns (op : OptPts) (pts : List (Rat × Rat)) (n : Nat) : Except String Nat :=
+  optLoopEns op pts n 100 (max 2 (n / 10)) []
+
+/-- `KymoTrack.estimate_diffusion("ols")` (`max_lag=None`): the estimate and the number of lags it reports. -/
+def olsAuto (op : OptPts) (t : List Pt) (dt : Rat) : Except String (Est × Nat) :=
+  match detOpt op t with
+  | .error e => .error e
+  | .ok k => (olsEstimate t dt (k.1 : Int)).map fun e => (e, k.1)
+
+/-- `KymoTrackGroup.ensemble_diffusion("ols")` (`max_lag=None`): all lags of the ensemble MSD, `lags + 1` for the track
+    length, the number of lags from `_determine_optimal_points_ensemble`, the line through `lags[:optimal_lags]`. -/
+def ensembleOlsAuto (op : OptPts) (tracks : List (List Pt)) (dt : Rat) : Except String (Est × Nat) :=
+  match ensembleMsd tracks none 2 with
+  | .error e => .error e
+  | .ok rows =>
+    let n := rows.length + 1
+    match detOptEns op (rows.map fun r => ((r.lag : Rat), r.st.mean)) n with
+    | .error e => .error e
+    | .ok k =>
+      (olsFromRows ((rows.take k).map fun r => ⟨r.lag, r.st.mean, 0⟩) n dt false (mean (rows.map (·.st.ess)))).map
+        fun e => (e, k)
+
+/-! #### `optimal_points` in doubles (the instance the run executes) -/
+
+section
+variable {α : Type} [RealLike α]
+/-- `x ** y` for `x ≥ 0` -/
+def rpow (x y : α) : α := RealLike.exp (y * RealLike.log x)
+def limitA (n : α) : α := 3.0 + rpow (4.5 * rpow n 0.4 - 8.5) 1.2
+def limitB (n : α) : α := 0.8 + 0.564 * n
+def factorA (le : α) : α := 2.0 + 1.6 * rpow le 0.51
+def factorB (le : α) : α := 2.0 + 1.35 * rpow le 0.6
+/-- `f * limit / (f**3 + limit**3) ** (1/3)` -/
+def satur (f lim : α) : α := f * lim / RealLike.cbrt (f * f * f + lim * lim * lim)
+end
+
+/-- a rational as the nearest double (up to 2⁻⁶³ relative), also for numerators / denominators beyond the double range -/
+def ratToFloat (q : Rat) : Float :=
+  let n := q.num.natAbs
+  let d := q.den
+  if n = 0 then 0.0
+  else
+    let shift : Int := 64 + (d.log2 : Int) - (n.log2 : Int)
+    let m : Nat := if 0 ≤ shift then (n <<< shift.toNat) / d else n / (d <<< (-shift).toNat)
+    let f := (Float.ofNat m).scaleB (-shift)
+    if q.num < 0 then -f else f
+
+/-- `int(np.floor(v))` for `v ≥ 0` -/
+def floorNat (v : Float) : Nat := v.floor.toUInt64.toNat
+
+/-- the pre-`floor` values `(slope bound, slope, intercept)` of `optimal_points` for a finite localisation error -/
+def optRaw (q : Rat) (n : Nat) : Float × Float × Float :=
+  let nf := n.toFloat
+  let x := ratToFloat q
+  (limitB nf, satur (factorB x) (limitB nf), satur (factorA x) (limitA nf))
+
+/-- `optimal_points(localization_error, num_points)` -/
+def optimalPointsF : OptPts := fun le n =>
+  if n ≤ 4 then .error "RuntimeError"
+  else match le with
+    | .nan => .error "ValueError"   -- `int(nan)`
+    | .inf => .ok (max 2 (floorNat (limitB n.toFloat)), max 2 (floorNat (limitA n.toFloat)))
+    | .fin q =>
+      let r := optRaw q n
+      .ok (max 2 (min (floorNat r.1) (floorNat r.2.1)), max 2 (floorNat r.2.2))
+
+/-- is a `floor` of `optimal_points` taken within 1e-6 of an integer (where the last bits of `pow` decide)?  Only the
+    values that go through `pow`/`cbrt`; `0.8 + 0.564 n` is the same double here and there. -/
+def floorTie (le : LocErr) (n : Nat) : Bool :=
+  let close (v : Float) : Bool := (v - (v + 0.5).floor).abs < 1e-6
+  match le with
+  | .nan => false
+  | .inf => close (limitA n.toFloat)
+  | .fin q => let r := optRaw q n; close r.2.1 || close r.2.2
+
+/-- `optimalPointsF`, answering the pseudo-error `tie` where `floorTie` holds (correspondence check only) -/
+def optimalPointsT : OptPts := fun le n =>
+  if n ≤ 4 then optimalPointsF le n else if floorTie le n then .error "tie" else optimalPointsF le n
+
+/-- is, for some number `p ≥ 2` of leading points, the intercept or the slope of the least-squares line through the first
+    `p` points zero within 1e-7 of the size of its terms?  There the branch of `locErr` is taken on the rounding noise of
+    `np.polyfit` (correspondence check only; no theorem is about it). -/
+def signTies (pts : List (Rat × Rat)) : Bool :=
+  (List.range (pts.length + 1)).any fun p =>
+    let q := pts.take p
+    decide (2 ≤ p) && decide (olsDen q ≠ 0) &&
+      (let K : Rat := (q.length : Rat)
+       let alpha := (q.map (·.1)).sum
+       let beta := (q.map fun x => x.1 * x.1).sum
+       let gamma := (q.map (·.2)).sum
+       let delta := (q.map fun x => x.1 * x.2).sum
+       let ga := (q.map fun x => rabs x.2).sum
+       let de := (q.map fun x => rabs (x.1 * x.2)).sum
+       decide (rabs (beta * gamma - alpha * delta) ≤ (1 / 10000000 : Rat) * (beta * ga + rabs alpha * de)) ||
+       decide (rabs (K * delta - alpha * gamma) ≤ (1 / 10000000 : Rat) * (K * de + rabs alpha * ga)))
+
 /-! ### tolerance scales (DESIGN §2.2) — the same formulas with every subtraction replaced by an
     addition of absolute values; used only by the correspondence check to bound the rounding error of
     the implementation's doubles in a conditioning-aware way.  No theorem is about them. -/
@@ -419,7 +587,12 @@ def ensembleVarScales (tracks : List (List MsdRow)) (lags : List Int) : List Rat
   `c09.wmean [means] [counts]`            → `ok mean var countSum ess  sVar`
   `c09.ensmsd [f;f…] [x;x…] L|N minCount` → `ok [lags] [mean] [var] [counts] [ess] [sVar]`
   `c09.enscve [f;…] [x;…] dt R`           → `ok value var lv vlv numPoints  sValue sVar sLv sVlv`
-  `c09.ensols [f;…] [x;…] dt L`           → `ok value var lv  sValue sVar sLv`            -/
+  `c09.ensols [f;…] [x;…] dt L`           → `ok value var lv  sValue sVar sLv`
+  `c09.optpts [frames] [xs]`              → `ok numSlope numIntercept`  (`determine_optimal_points`) | `tie`
+  `c09.olsauto [frames] [xs] dt`          → `ok value var lv numLags  sValue sVar sLv` (`max_lag=None`) | `tie`
+  `c09.ensolsauto [f;…] [x;…] dt`         → `ok value var lv numLags  sValue sVar sLv` | `tie`
+  `c09.optraw le|inf|nan n`               → `ok numSlope numIntercept`  (`optimal_points`) | `tie`
+  (`tie`: a sign / `floor` the code branches on is decided by the last bits of a double: nothing to compare) -/
 def handle : List String → Option String
   | ["c09.msd", fs, xs, L] => do
     let t ← mkTrack? fs xs
@@ -501,6 +674,36 @@ def handle : List String → Option String
             (rows.length + 1) dt (mean (rows.map (·.st.ess)))
           showRats [e.value, e.var, e.lv, s.value, s.var, s.lv]
         | .error _ => "unreachable") (ensembleOls ts dt L))
+  | ["c09.optpts", fs, xs] => do
+    let t ← mkTrack? fs xs
+    if 5 ≤ t.length ∧ signTies (ptsOf (msdCounts t none)) then some "tie"
+    else some (showExcept (fun (k : Nat × Nat) => toString k.1 ++ " " ++ toString k.2) (detOpt optimalPointsT t))
+  | ["c09.olsauto", fs, xs, dt] => do
+    let t ← mkTrack? fs xs
+    let dt ← rat? dt
+    if 5 ≤ t.length ∧ signTies (ptsOf (msdCounts t none)) then some "tie"
+    else some (showExcept (fun (r : Est × Nat) =>
+      let e := r.1
+      let s := olsScaleFromRows (msdCounts t (some (r.2 : Int))) t.length dt 1
+      showRats [e.value] ++ " " ++ (if e.varDefined then showRat e.var else "nonfinite") ++ " "
+        ++ showRats [e.lv] ++ " " ++ toString r.2 ++ " " ++ showRats [s.value, s.var, s.lv]) (olsAuto optimalPointsT t dt))
+  | ["c09.ensolsauto", fs, xs, dt] => do
+    let ts ← mkTracks? fs xs
+    let dt ← rat? dt
+    match ensembleMsd ts none 2 with
+    | .error e => some e
+    | .ok rows =>
+      if 5 ≤ rows.length + 1 ∧ signTies (rows.map fun r => ((r.lag : Rat), r.st.mean)) then some "tie"
+      else some (showExcept (fun (r : Est × Nat) =>
+        let e := r.1
+        let s := olsScaleFromRows ((rows.take r.2).map fun r => ⟨r.lag, r.st.mean, 0⟩)
+          (rows.length + 1) dt (mean (rows.map (·.st.ess)))
+        showRats [e.value, e.var, e.lv] ++ " " ++ toString r.2 ++ " " ++ showRats [s.value, s.var, s.lv])
+        (ensembleOlsAuto optimalPointsT ts dt))
+  | ["c09.optraw", le, n] => do
+    let n ← nat? n
+    let le ← (if le == "inf" then some LocErr.inf else if le == "nan" then some LocErr.nan else (rat? le).map LocErr.fin)
+    some (showExcept (fun (k : Nat × Nat) => toString k.1 ++ " " ++ toString k.2) (optimalPointsT le n))
   | _ => none
 
 end Verif.C09
